@@ -427,7 +427,7 @@ class MainModel:
                     return d["decl"], op
         return None
 
-    def case_split(self, refine=False):
+    def case_split(self, refine=False, loop_continues=False):
         """[(assumption {var: bool}, pruned CFG)] over all truth assignments of the null-invariant classes; with refine=True additionally
         over the sign (-1, 0, +1) of the const integers of sign_variables().  Branch conditions are evaluated three-valued through
         !, && and ||, so `wkm != nullptr || x` is true under the assumption that wkm is non-null."""
@@ -448,6 +448,14 @@ class MainModel:
 
                 def decide(cond, asg=asg, sgn=sgn):
                     c = A.strip(cond)
+                    if loop_continues:
+                        # for statements about the iterations that follow: the loop goes on only while the abort flag is unset, and nothing
+                        # but the signal handler sets it (C14 R1/R2), so within a continuing run a test of the flag reads `false`
+                        d_ = A.declref(c)
+                        if d_ is not None and (d_.get("qname") or "").endswith("Display::abort"):
+                            return False
+                        if c.get("k") == "MemberExpr" and (c.get("member") or {}).get("name") == "abort" and "Display" in (c.get("member") or {}).get("qname", ""):
+                            return False
                     if c.get("k") == "UnaryOperator" and c.get("op") == "!":
                         v = decide(c["c"][0])
                         return None if v is None else (not v)
